@@ -17,7 +17,7 @@ SCRIPT = {"p_cancel": 0.45, "p_update": 0.2, "p_replace": 0.3, "p_second_op": 0.
 
 
 def plan(tier, seed):
-    cases = _sim.plan_profiles(tier, seed, WEIGHTS, 2400, 60000)
+    cases = _sim.plan_profiles(tier, seed, WEIGHTS, 8000, 80000)
     for c in cases:
         c["overrides"] = {"script_params": SCRIPT}
     return cases
